@@ -257,6 +257,8 @@ def check_heap(rep, repo: Repo, pre: str = "") -> None:
         for e in w.events:
             if e.kind in ("bind",):
                 continue
+            if (e.kind == "call" and e.name == "<inline>") or (e.kind == "return" and e.fn is not w.entry):
+                continue  # bookkeeping of an inlined private helper: its body's events are listed themselves
             gs = []
             for g in facts(e.guards):
                 g = norm_cond(norm_sels(g))
@@ -364,7 +366,9 @@ def check_heap(rep, repo: Repo, pre: str = "") -> None:
                             and len(atom[2]) == 1:
                         cur, which = strip_old(atom[2][0]), "right"  # left_son(x) + 1 is right_son(x) (H4)
             if cur is not None and any(_cost_cmp(c) for c in facts(e.guards)):
-                cands.append((e, v, cur, which))
+                # (the same selection bound once in an inlined helper and once more from its result is one selection)
+                if not any(c[1] == v and c[3] == which and facts(c[0].guards) == facts(e.guards) for c in cands):
+                    cands.append((e, v, cur, which))
         if len(cands) != 2 or {c[3] for c in cands} != {"left", "right"}:
             rep.fn(pre + "H3-down-children", w.entry, f"go_down selects among the left and the right child under cost tests  [{pol}]",
                    False, f"expected one left and one right child selection guarded by a cost comparison, found {[c[3] for c in cands]}: "
